@@ -8,6 +8,7 @@ import boundary
 import xcodec as X
 import gen_asn1 as G
 import lib
+import c05_refsites as RS
 
 FINDING_WITNESSES = 'known_findings/C05.json'
 
@@ -36,11 +37,16 @@ def rerun_findings(ctx):
             ctx.known_finding(f['id'], f['what'])
 
 
-def sm_vs_library(ctx, cases, codec='uper'):
+def sm_vs_library(ctx, cases, codec='uper', tag='', shard=150):
     """The X.691 specification model (Per/X691.v) against uper.py directly: on every generated case inside
     x691_scope the library's octets must be the specification's (this is the composition of the correspondence
-    IM = library with the theorem IM = SM, executed end to end); the share of cases inside the scope is reported."""
-    from common import to_coq
+    IM = library with the theorem IM = SM, executed end to end); the share of cases inside the scope is reported.
+
+    Reference-site cases (c05_refsites.SiteCase) are evaluated on the SURFACE module: the environment is computed
+    in Coq by Per/RefSite.v [elab_env] from the definitions as written and the list of constrained sites, and the
+    type is the plain reference to the case's type, so what a constrained reference means comes from the
+    specification side and not from the Python `effective` rewriting used for the implementation model."""
+    from common import to_coq, C
     rows = []
     for c in cases:
         r = lib.attempt(lib.compile_string, c.text, codec, numeric_enums=c.numeric)
@@ -49,38 +55,52 @@ def sm_vs_library(ctx, cases, codec='uper'):
         e = lib.attempt(r[1].encode, c.tname, c.api_value())
         rows.append((c, e))
     shards, index = [], []
-    for s0 in range(0, len(rows), 150):
-        part = rows[s0:s0 + 150]
+    for s0 in range(0, len(rows), shard):
+        part = rows[s0:s0 + shard]
         envs, lines, cells = {}, [], []
         for c, e in part:
             key = (id(c.mod), c.numeric)
+            site = isinstance(c, RS.SiteCase)
             if key not in envs:
                 envs[key] = 'env%d' % len(envs)
-                lines.append('Definition %s : env := %s.' % (envs[key], to_coq(G.coq_env(c.mod, c.numeric))))
-            ty = to_coq(G.coq_type(c.rt, c.t, c.numeric))
+                if site:
+                    senv, ds = RS.coq_surface(c.amod, c.numeric)
+                    lines.append('Definition s%s : env := %s.' % (envs[key], to_coq(senv)))
+                    lines.append('Definition d%s : list derived := %s.' % (envs[key], to_coq(ds)))
+                    lines.append('Definition %s : env := elab_env_or_empty s%s d%s.' % (envs[key], envs[key], envs[key]))
+                else:
+                    lines.append('Definition %s : env := %s.' % (envs[key], to_coq(G.coq_env(c.mod, c.numeric))))
+            ty = to_coq(C('TRef', c.tname)) if site else to_coq(G.coq_type(c.rt, c.t, c.numeric))
             val = to_coq(G.coq_value(c.rt, c.t, c.api_value()))
             nm = 'true' if c.numeric else 'false'
             want = to_coq(bytes(e[1])) if e[0] == 'ok' else '[]'
+            # third component: the surface module is well formed (every constrained site elaborates)
+            wf = ('match elab_env s%s d%s with Some _ => true | None => false end' % (envs[key], envs[key])) if site else 'true'
             if codec == 'uper':
                 cells.append('(x691_scope %s %s 40 %s %s, match x691_encode_octets %s %s 40 %s %s with Ok b => '
-                             'if list_eqb Z.eqb b %s then 1 else 0 | Err _ => 2 end)' % (
-                                 nm, envs[key], ty, val, nm, envs[key], ty, val, want))
+                             'if list_eqb Z.eqb b %s then 1 else 0 | Err _ => 2 end, %s)' % (
+                                 nm, envs[key], ty, val, nm, envs[key], ty, val, want, wf))
             else:
                 # aligned: the reading pad_empty = true (an empty octet-aligned bit-field still pads)
                 cells.append('(x691a_scope true %s %s 40 %s %s, match x691a_encode_octets %s %s true 40 %s %s with Ok b => '
-                             'if list_eqb Z.eqb b %s then 1 else 0 | Err _ => 2 end)' % (
-                                 nm, envs[key], ty, val, nm, envs[key], ty, val, want))
+                             'if list_eqb Z.eqb b %s then 1 else 0 | Err _ => 2 end, %s)' % (
+                                 nm, envs[key], ty, val, nm, envs[key], ty, val, want, wf))
         lines.append('Eval vm_compute in [%s].' % ';\n '.join(cells))
         shards.append('\n'.join(lines) + '\n')
         index.append(part)
-    res = CC.run_shards(ctx, 'x691_' + codec, ['Base.Prelude', 'Base.Corr', 'Syntax.Asn1', 'Per.UperImpl', 'Per.X691', 'Per.X691Refine'] +
-                        (['Per.PerImpl', 'Per.X691Aligned', 'Per.X691AlignedRefine'] if codec == 'per' else []), shards)
+    res = CC.run_shards(ctx, 'x691_' + tag + codec, ['Base.Prelude', 'Base.Corr', 'Syntax.Asn1', 'Per.UperImpl', 'Per.X691', 'Per.X691Refine'] +
+                        (['Per.PerImpl', 'Per.X691Aligned', 'Per.X691AlignedRefine'] if codec == 'per' else []) +
+                        (['Per.RefSite'] if tag else []), shards)
     for part, r in zip(index, res):
         (cells,) = r
-        for (c, e), (inscope, verdict) in zip(part, cells):
+        for (c, e), (inscope, verdict, wf) in zip(part, cells):
             ctx.evaluations += 1
             inscope = inscope in (True, 'true')
-            ctx.count('x691-scope:%s:%s' % (codec, 'in' if inscope else 'out'))
+            ctx.count('x691-scope:%s%s:%s' % (tag, codec, 'in' if inscope else 'out'))
+            if wf not in (True, 'true'):
+                ctx.violation('harness: a generated surface module does not elaborate in Per/RefSite.v (generator and '
+                              'specification disagree about what can be written)', c.replay(codec=codec, kind='x691-elab'))
+                continue
             if not inscope:
                 continue
             empty = e[0] == 'ok' and e[1] == b''
@@ -100,9 +120,16 @@ def run(ctx):
         print('library:', lib.attempt(spec.encode, doc['type'], eval(doc['value'])))
         return
     ctx.rule = ('modules from harness/gen_asn1.py (all modelled kinds, extensible constraints, additions and groups, '
-                'references/recursion) x boundary-biased values x numeric_enums; distinct by (codec, type shape, value '
+                'references/recursion) and from harness/c05_refsites.py (same-named reference sites of one named type '
+                'with per-site SIZE / range / OPTIONAL / DEFAULT / tag, AUTOMATIC / IMPLICIT / EXPLICIT TAGS) x '
+                'boundary-biased values x numeric_enums; distinct by (codec, type shape, value '
                 'prefix); non-trivial = every case (each compares complete bit strings of a generated type)')
+    # helper layer regenerated from the source (translator/pyfun.py) BEFORE the theorems are checked against it
+    import pyfun_tie
+    _tie = pyfun_tie.run_tie(ctx, budget=400)
     ok = ctx.coq_props()
+    pyfun_tie.report(ctx, _tie, functions=['integer_as_number_of_bits', 'integer_as_number_of_bits_power_of_two', 'size_as_number_of_bytes', 'is_unbound', 'to_int', 'to_byte_array'])
+
     n = 60 if ctx.quick else 900
     opts = G.Opts(**U.OPTS)
     cases = CC.gen_cases(ctx, opts, n, 3)
@@ -117,6 +144,19 @@ def run(ctx):
             pcases = CC.gen_cases(ctx, G.Opts(**mods[codec].OPTS), n, 3)
             CC.corr_encode_decode(ctx, mods[codec], pcases)
             sm_vs_library(ctx, pcases, codec)
+    # round 5: reference sites that share the compile layer's cache key (same component name, same referenced
+    # type), each with its own constraint / OPTIONAL / DEFAULT / tag, with and without AUTOMATIC TAGS
+    nsite = 20 if ctx.quick else 400
+    for codec in ('uper', 'per'):
+        cm = U if codec == 'uper' else mods.get(codec)
+        if cm is None:
+            continue
+        scases = RS.gen_cases(ctx, G.Opts(**cm.OPTS), nsite, 2)
+        if not ctx.quick:
+            # implementation models on the effective module (all cases, decoder included); the quick tier keeps the
+            # specification path only (one Coq evaluation per codec; ~91 % of the cases are inside the X.691 scope)
+            CC.corr_encode_decode(ctx, cm, scases, tag='corr-sites')
+        sm_vs_library(ctx, scases, codec, tag='sites-', shard=400 if ctx.quick else 150)
     boundary.run(ctx, ['uper', 'per'], mods, roundtrip=False,
                  lengths=None if not ctx.quick else 'quick')
     rerun_findings(ctx)
